@@ -93,12 +93,12 @@ Definition gb_weighted (c : bytes) : Z :=
   8 * dig c 0 + 7 * dig c 1 + 6 * dig c 2 + 5 * dig c 3 + 4 * dig c 4 + 3 * dig c 5 + 2 * dig c 6.
 Definition gb_old_range (n : Z) : Prop := n < 9990001 /\ (n < 100000 \/ 999999 < n) /\ (n < 9490001 \/ 9700000 < n).
 Definition gb_check_number (c : bytes) : Z := 97 - (gb_weighted c) mod 97.        (* 1..97 *)
-Definition gb_check_number_9755 (c : bytes) : Z :=
-  if 55 <=? gb_check_number c then gb_check_number c - 55 else gb_check_number c + 42.
-Definition Spec_GB_commercial (c : bytes) : Prop :=
+Definition gb_9755 (cn : Z) : Z := if 55 <=? cn then cn - 55 else cn + 42.
+Definition Spec_GB_commercial_with (check_number : bytes -> Z) (c : bytes) : Prop :=
   (List.length c = 9%nat \/ List.length c = 12%nat) /\ digits_between c 0 (List.length c) /\
   num_of c <> 0 /\
-  ((number c 7 9 = gb_check_number c /\ gb_old_range (number c 0 7)) \/
-   (number c 7 9 = gb_check_number_9755 c /\ 1000000 < number c 0 7)).
+  ((number c 7 9 = check_number c /\ gb_old_range (number c 0 7)) \/
+   (number c 7 9 = gb_9755 (check_number c) /\ 1000000 < number c 0 7)).
+Definition Spec_GB_commercial : bytes -> Prop := Spec_GB_commercial_with gb_check_number.
 (* what the implementation computes instead of gb_check_number: 0 when the sum is a multiple of 97 *)
 Definition gb_check_number_impl (c : bytes) : Z := (97 - (gb_weighted c) mod 97) mod 97.
